@@ -1,1 +1,172 @@
-// harnesses for test_function (cfg(kani) only)
+// Harnesses for src/query/test_function.rs (cfg(kani) only): C10 (length, count, value), C14 plumbing.
+#![allow(unused_imports, dead_code)]
+use super::*;
+use crate::verif_common::*;
+use core::mem::{forget, MaybeUninit};
+
+fn as_int(s: &State<Mini>) -> Option<i64> {
+    match &s.data {
+        Data::Value(Mini::Int(i)) => Some(*i),
+        _ => None,
+    }
+}
+
+// ---- length(): RFC 9535 2.4.4 ------------------------------------------------
+// argument given as node reference and as owned value (both forms)
+macro_rules! c10_length {
+    ($name:ident, $unwind:expr, |$sc:ident| $build:block) => {
+        proof!($name, $unwind, {
+            let root = Mini::Null;
+            let mut $sc = Scratch::new();
+            let (node, expect): (Mini, Option<i64>) = $build;
+            let r1 = length(State::data(&root, Data::Ref(Pointer::new(&node, String::from("p")))));
+            let r2 = length(State::data(&root, Data::Value(node)));
+            match expect {
+                Some(n) => {
+                    assert!(as_int(&r1) == Some(n), "length of a node differs from RFC 9535");
+                    assert!(as_int(&r2) == Some(n), "length of a value differs from RFC 9535");
+                }
+                None => {
+                    assert!(r1.is_nothing(), "length of a non string/array/object node must be Nothing");
+                    assert!(r2.is_nothing(), "length of a non string/array/object value must be Nothing");
+                }
+            }
+            kani::cover!(true, "end reached");
+            forget(r1);
+            forget(r2);
+            forget($sc);
+        });
+    };
+}
+// strings: concrete byte length per harness (a symbolic length drags core's
+// chunked do_count_chars path into symex), arbitrary valid UTF-8 content of the
+// stated scalar widths; RFC: length = number of Unicode scalar values.
+macro_rules! c10_length_str {
+    ($name:ident, $unwind:expr, [$($w:expr),*]) => {
+        c10_length!($name, $unwind, |sc| {
+            let mut buf = [0u8; 8];
+            let mut at = 0usize;
+            let mut n = 0i64;
+            $( sym_scalar(&mut buf, at, $w); at += $w; n += 1; )*
+            let s = str_over(leak(buf), at);
+            (Mini::Str(s), Some(n))
+        });
+    };
+}
+c10_length_str!(c10_length_str_empty, 3, []);
+c10_length_str!(c10_length_str_w1, 4, [1]);
+c10_length_str!(c10_length_str_w2, 5, [2]);
+c10_length_str!(c10_length_str_w3, 6, [3]);
+c10_length_str!(c10_length_str_w4, 7, [4]);
+c10_length_str!(c10_length_str_w1_3, 7, [1, 3]);
+c10_length_str!(c10_length_str_w4_4, 11, [4, 4]);
+c10_length_str!(c10_length_str_w1_1_1, 6, [1, 1, 1]);
+c10_length_str!(c10_length_str_w2_4_1, 10, [2, 4, 1]);
+c10_length!(c10_length_arr, 5, |sc| {
+    let n: usize = kani::any();
+    kani::assume(n <= 3);
+    sc.elems[0] = Mini::Int(kani::any());
+    sc.elems[1] = Mini::Null;
+    sc.elems[2] = Mini::Bool(kani::any());
+    kani::cover!(n == 0, "empty array");
+    kani::cover!(n == 3, "three elements");
+    (sc.arr(n), Some(n as i64))
+});
+c10_length!(c10_length_obj, 5, |sc| {
+    let n: usize = kani::any();
+    kani::assume(n <= 3);
+    sc.members[0] = (String::from("a"), Mini::Int(kani::any()));
+    sc.members[1] = (String::from("b"), Mini::Null);
+    sc.members[2] = (String::from("c"), Mini::Bool(kani::any()));
+    kani::cover!(n == 0, "empty object");
+    kani::cover!(n == 3, "three members");
+    (sc.obj(n), Some(n as i64))
+});
+c10_length!(c10_length_int, 3, |sc| { (Mini::Int(kani::any()), None) });
+c10_length!(c10_length_float, 3, |sc| { (Mini::Float(any_finite_f64()), None) });
+c10_length!(c10_length_bool, 3, |sc| { (Mini::Bool(kani::any()), None) });
+c10_length!(c10_length_null, 3, |sc| { (Mini::Null, None) });
+
+proof!(c10_length_nothing, 3, {
+    let root = Mini::Null;
+    let r = length(State::nothing(&root));
+    assert!(r.is_nothing(), "length of an empty nodelist must be Nothing");
+    kani::cover!(true, "end reached");
+});
+
+// ---- count(): RFC 9535 2.4.5 ---------------------------------------------------
+macro_rules! c10_count {
+    ($name:ident, $k:expr) => {
+        proof!($name, 6, {
+            let root = Mini::Null;
+            let nodes = [Mini::Int(kani::any()), Mini::Null, Mini::Bool(kani::any()), Mini::Int(kani::any())];
+            let mut buf: [MaybeUninit<Pointer<Mini>>; 4] = [MaybeUninit::uninit(), MaybeUninit::uninit(), MaybeUninit::uninit(), MaybeUninit::uninit()];
+            let d = refs_of(&nodes, &mut buf, $k);
+            let r = count(State::data(&root, d));
+            assert!(as_int(&r) == Some($k as i64), "count differs from the number of selected nodes");
+            kani::cover!(true, "end reached");
+            forget(r);
+        });
+    };
+}
+c10_count!(c10_count_refs0, 0);
+c10_count!(c10_count_refs1, 1);
+c10_count!(c10_count_refs3, 3);
+
+proof!(c10_count_ref, 3, {
+    let root = Mini::Null;
+    let node = Mini::Null; // value irrelevant: null counts
+    let r = count(State::data(&root, Data::Ref(Pointer::new(&node, String::from("p")))));
+    assert!(as_int(&r) == Some(1), "count of a single node must be 1");
+    kani::cover!(true, "end reached");
+    forget(r);
+});
+
+proof!(c10_count_nothing, 3, {
+    let root = Mini::Null;
+    let r = count(State::nothing(&root));
+    assert!(as_int(&r) == Some(0), "count of an empty nodelist must be 0");
+    kani::cover!(true, "end reached");
+    forget(r);
+});
+
+// ---- value(): RFC 9535 2.4.8 ---------------------------------------------------
+macro_rules! c10_value_refs {
+    ($name:ident, $k:expr) => {
+        proof!($name, 6, {
+            let root = Mini::Null;
+            let nodes = [Mini::Int(kani::any()), Mini::Null, Mini::Bool(kani::any()), Mini::Int(kani::any())];
+            let mut buf: [MaybeUninit<Pointer<Mini>>; 4] = [MaybeUninit::uninit(), MaybeUninit::uninit(), MaybeUninit::uninit(), MaybeUninit::uninit()];
+            let d = refs_of(&nodes, &mut buf, $k);
+            let r = value(State::data(&root, d));
+            if $k == 1 {
+                match &r.data {
+                    Data::Ref(p) => assert!(core::ptr::eq(p.inner, &nodes[0]), "value() of a one-node list must be that node"),
+                    _ => assert!(false, "value() of a one-node list must be that node"),
+                }
+            } else {
+                assert!(r.is_nothing(), "value() of an empty or multi-node list must be Nothing");
+            }
+            kani::cover!(true, "end reached");
+            forget(r);
+        });
+    };
+}
+c10_value_refs!(c10_value_refs0, 0);
+c10_value_refs!(c10_value_refs1, 1);
+c10_value_refs!(c10_value_refs2, 2);
+c10_value_refs!(c10_value_refs3, 3);
+
+proof!(c10_value_ref, 3, {
+    let root = Mini::Null;
+    let node = Mini::Int(kani::any());
+    let r = value(State::data(&root, Data::Ref(Pointer::new(&node, String::from("p")))));
+    match &r.data {
+        Data::Ref(p) => assert!(core::ptr::eq(p.inner, &node), "value() of a single node must be that node"),
+        _ => assert!(false, "value() of a single node must be that node"),
+    }
+    let r2 = value(State::nothing(&root));
+    assert!(r2.is_nothing(), "value() of nothing must be Nothing");
+    kani::cover!(true, "end reached");
+    forget(r);
+});
